@@ -19,7 +19,7 @@ def run(ctx):
     recs, hist = [], {}
     seeds = [ctx.seed] if q else [ctx.seed + i for i in range(4)]
     for s in seeds:
-        cuts = smf.gen(ctx, "cut", 60 if q else 500, s + 200, "c05", big=not q)
+        cuts = smf.gen(ctx, "cut", 60 if q else 500, s + 200, "c05", big=True)
         anys = smf.gen(ctx, "any", 3000 if q else 30000, s + 300, "c05")
         recs += cuts + anys
         for c in cuts:
